@@ -71,7 +71,9 @@ impl Pt {
     }
     /// the k-th entry (k >= 1) of the point's update script: (numeric value, bytes, flags, time)
     fn script(self, k: u64) -> (f64, Vec<u8>, u8, u64) {
-        let flags = if k % 3 == 0 { 0x05 } else { 0x01 };
+        // the binary output status point is configured with the packed static variation g10v1 and
+        // leaves plain ONLINE with its very first update (the static answer must be promoted)
+        let flags = if (self == Pt::BoStatus0 && k % 2 == 1) || k % 3 == 0 { 0x05 } else { 0x01 };
         // binary and double-bit events are reported with relative times (g2v3 / g4v3): their
         // time stamps run *backwards* from update to update (a device clock that was set back),
         // and a later-updated point can carry an earlier time than the one before it
@@ -95,7 +97,7 @@ fn add_points(db: &mut Database) {
     db.add(0, Some(Pt::Binary0.class()), BinaryInputConfig::new(StaticBinaryInputVariation::Group1Var2, EventBinaryInputVariation::Group2Var3));
     db.add(1, Some(Pt::Binary1.class()), BinaryInputConfig::new(StaticBinaryInputVariation::Group1Var1, EventBinaryInputVariation::Group2Var3));
     db.add(0, Some(Pt::Double0.class()), DoubleBitBinaryInputConfig::new(StaticDoubleBitBinaryInputVariation::Group3Var2, EventDoubleBitBinaryInputVariation::Group4Var3));
-    db.add(0, Some(Pt::BoStatus0.class()), BinaryOutputStatusConfig::new(StaticBinaryOutputStatusVariation::Group10Var2, EventBinaryOutputStatusVariation::Group11Var2));
+    db.add(0, Some(Pt::BoStatus0.class()), BinaryOutputStatusConfig::new(StaticBinaryOutputStatusVariation::Group10Var1, EventBinaryOutputStatusVariation::Group11Var2));
     db.add(0, Some(Pt::Counter0.class()), CounterConfig::new(StaticCounterVariation::Group20Var1, EventCounterVariation::Group22Var5, 0));
     db.add(0, Some(Pt::Frozen0.class()), FrozenCounterConfig::new(StaticFrozenCounterVariation::Group21Var1, EventFrozenCounterVariation::Group23Var5, 0));
     db.add(0, Some(Pt::Analog0.class()), AnalogInputConfig::new(StaticAnalogInputVariation::Group30Var1, EventAnalogInputVariation::Group32Var3, 0.0));
@@ -141,6 +143,9 @@ enum Dev {
     /// binary 0's only event), then analog and counter events to one below capacity -- enough for a
     /// multi-fragment event response whose overflow indication is gone by the last fragment
     Burst,
+    /// every event type is filled exactly to its configured limit (no discard): the buffer must
+    /// hold the sum of the per-type limits
+    BurstAll,
     /// the connection dies on the master's side only; the outstation's session is replaced by
     /// the next connection (half-open TCP connection)
     HalfOpen,
@@ -301,6 +306,28 @@ impl Scenario for C02 {
                                 discarded.push(dd);
                             }
                             _ => {}
+                        }
+                    }
+                    pair.pump();
+                }
+                Dev::BurstAll => {
+                    deviations += 1;
+                    let n = self.corner.events as usize;
+                    for pt in [Pt::Binary0, Pt::Double0, Pt::BoStatus0, Pt::Counter0, Pt::Frozen0, Pt::Analog0, Pt::AoStatus0, Pt::Octets0] {
+                        // leave room for what the type already holds: fill to the limit, never beyond
+                        for _ in 0..n {
+                            let held = created.iter().filter(|(p, _, id)| p.kind() == pt.kind() && !discarded.contains(id)).count();
+                            let _ = held;
+                            let k = applied.get(&pt).copied().unwrap_or(0) + 1;
+                            applied.insert(pt, k);
+                            match pair.ohandle.transaction(|db| update(db, pt, k)) {
+                                UpdateInfo::Created(id) => created.push((pt, k, id)),
+                                UpdateInfo::Overflow { created: id, discarded: dd } => {
+                                    created.push((pt, k, id));
+                                    discarded.push(dd);
+                                }
+                                _ => {}
+                            }
                         }
                     }
                     pair.pump();
@@ -509,9 +536,9 @@ impl Scenario for C02 {
 }
 
 fn alphabet(tier: &str) -> Vec<Dev> {
-    let mut v = vec![Dev::Default, Dev::Upd(Pt::Binary0), Dev::Upd(Pt::Analog0), Dev::Cut, Dev::HalfOpen, Dev::O2mFirstByte, Dev::Stall, Dev::Upd(Pt::Counter0), Dev::Upd(Pt::Octets0), Dev::M2oFirstByte, Dev::O2mSplit(10), Dev::Operate];
+    let mut v = vec![Dev::Default, Dev::Upd(Pt::Binary0), Dev::Upd(Pt::Analog0), Dev::Cut, Dev::HalfOpen, Dev::O2mFirstByte, Dev::Stall, Dev::Upd(Pt::Counter0), Dev::Upd(Pt::Octets0), Dev::M2oFirstByte, Dev::O2mSplit(10), Dev::Operate, Dev::Upd(Pt::BoStatus0)];
     if tier != "quick" {
-        v.extend([Dev::Upd(Pt::Binary1), Dev::Upd(Pt::Double0), Dev::Upd(Pt::BoStatus0), Dev::Upd(Pt::Frozen0), Dev::Upd(Pt::AoStatus0), Dev::O2mSplit(11), Dev::O2mSplit(292)]);
+        v.extend([Dev::Upd(Pt::Binary1), Dev::Upd(Pt::Double0), Dev::Upd(Pt::Frozen0), Dev::Upd(Pt::AoStatus0), Dev::O2mSplit(11), Dev::O2mSplit(292)]);
     }
     v
 }
@@ -526,7 +553,7 @@ fn scenarios(tier: &str) -> Vec<C02> {
     ];
     // bursts that overflow a type and need several fragments to report
     let burst_corner = Corner { unsol: false, small: true, events: 10, close: true, poll: true, extra: 0 };
-    let burst_alphabet = vec![Dev::Default, Dev::Burst, Dev::Stall, Dev::Cut, Dev::Upd(Pt::Binary0), Dev::O2mFirstByte];
+    let burst_alphabet = vec![Dev::Default, Dev::Burst, Dev::Stall, Dev::Cut, Dev::Upd(Pt::Binary0), Dev::O2mFirstByte, Dev::BurstAll];
     // a database whose integrity response needs several fragments
     let big_corner = Corner { unsol: false, small: true, events: 10, close: true, poll: true, extra: 120 };
     let big_alphabet = vec![Dev::Default, Dev::Upd(Pt::Analog0), Dev::Cut, Dev::Stall, Dev::O2mFirstByte, Dev::Upd(Pt::Binary0)];
